@@ -591,6 +591,32 @@ func (x *Exec) feasibleCond(st *State, cond string) bool {
 	return status != "unsat"
 }
 
+// feasibleWithin: like feasibleCond(st, "true") with a longer budget; "unknown" counts as feasible.
+func (x *Exec) feasibleWithin(st *State, timeout int) bool {
+	gs := map[string]bool{}
+	for g := range st.groups {
+		gs[g] = true
+	}
+	if x.c != nil {
+		for _, g := range x.c.Groups {
+			gs[g] = true
+		}
+	}
+	o := &Obligation{Name: "feasibility", Cmds: st.cmds, Goal: "false", Groups: gs}
+	txt := x.e.smtText(o, false)
+	if len(txt) > maxSMTSize {
+		return true
+	}
+	dir := filepath.Join(outBase(), "tmp")
+	os.MkdirAll(dir, 0755)
+	x.e.feasN++
+	file := filepath.Join(dir, fmt.Sprintf("feas_%d_%d.smt2", os.Getpid(), x.e.feasN))
+	os.WriteFile(file, []byte(txt), 0644)
+	defer os.Remove(file)
+	x.feasCalls++
+	return raceRefute(context.Background(), file, txt, timeout) != "unsat"
+}
+
 // refuteEither asks both "can cond hold?" and "can its negation hold?" at once; refutations are quick, so the answer
 // usually arrives long before the other query (satisfiable, hence slow with quantified axioms) would time out.
 // Returns which sides are refuted.
